@@ -394,6 +394,75 @@ func (g *G) viewTmpl(t *ty.Ty) []*ty.Val {
 	return tmpl
 }
 
+// floaty: the type holds a float or complex leaf (values of it can hold NaN)
+func floaty(env *ty.Env, t *ty.Ty) bool {
+	found := false
+	gen.Walk(env, t, gen.CtxTop, map[int]bool{}, func(x *ty.Ty, ctx int) {
+		if x.K == ty.Basic && (strings.HasPrefix(x.B, "float") || strings.HasPrefix(x.B, "complex")) {
+			found = true
+		}
+	})
+	return found
+}
+
+// nanify returns a copy of v whose first float / complex leaf (outside map keys) is the canonical quiet NaN.
+func nanify(v *ty.Val) (*ty.Val, bool) {
+	c := *v
+	switch v.K {
+	case ty.VFlt, ty.VCplx:
+		if v.W == 32 {
+			c.Bits = uint64(math.Float32bits(float32(math.NaN())))
+		} else {
+			c.Bits = math.Float64bits(math.NaN())
+		}
+		return &c, true
+	}
+	if v.Elems != nil {
+		c.Elems = append([]*ty.Val(nil), v.Elems...)
+		for i, e := range v.Elems {
+			if v.K == ty.VMap && i%2 == 0 {
+				continue
+			}
+			if ne, ok := nanify(e); ok {
+				c.Elems[i] = ne
+				return &c, true
+			}
+		}
+	}
+	return &c, false
+}
+
+// nanLists: lists over the pool and its NaN variants for the consistency ops (…eq): NaN alone, twice (two
+// objects), between ordinary values, Equal-but-not-identical neighbours, and random mixtures.
+func (g *G) nanLists(pool []*ty.Val) (lists [][]*ty.Val, items []*ty.Val) {
+	var nans []*ty.Val
+	for _, v := range pool {
+		if nv, ok := nanify(v); ok {
+			nans = append(nans, nv)
+			if len(nans) == 3 {
+				break
+			}
+		}
+	}
+	if len(nans) == 0 {
+		return nil, nil
+	}
+	a, nn := pool[0], nans[0]
+	b := pool[len(pool)-1]
+	lists = [][]*ty.Val{nil, {nn}, {nn, nn}, {a, nn}, {nn, a}, {a, nn, b, nn, a}, {nn, nans[len(nans)-1], b}}
+	all := append(append([]*ty.Val(nil), pool...), nans...)
+	for k := 0; k < g.nRandom; k++ {
+		n := 1 + g.rng.Intn(g.maxLen)
+		es := make([]*ty.Val, n)
+		for i := range es {
+			es[i] = all[g.rng.Intn(len(all))]
+		}
+		lists = append(lists, es)
+	}
+	items = []*ty.Val{nn, a, b, nans[len(nans)-1]}
+	return lists, items
+}
+
 func isBoolUnder(env *ty.Env, t *ty.Ty) bool {
 	u := env.Under(t)
 	return u.K == ty.Basic && u.B == "bool"
@@ -411,6 +480,16 @@ func kindName(k ty.Kind) string {
 func (g *G) elemPool(t *ty.Ty) []*ty.Val {
 	pool := append([]*ty.Val(nil), g.vg.Pool(t)...)
 	u := g.env.Under(t)
+	if u.K == ty.Map {
+		// two maps with the same keys whose order is decided at the SMALLEST key but would be decided the
+		// other way at the largest one (the keys are sorted before the entries are compared)
+		kp, vp := g.vg.Pool(u.Key), g.vg.Pool(u.Elem)
+		if len(kp) > 2 && len(vp) > 1 {
+			pool = append(pool, &ty.Val{K: ty.VMap, Elems: []*ty.Val{kp[0], vp[1], kp[2], vp[0]}},
+				&ty.Val{K: ty.VMap, Elems: []*ty.Val{kp[2], vp[1], kp[0], vp[0]}})
+		}
+		return pool
+	}
 	if u.K != ty.Slice {
 		return pool
 	}
@@ -573,6 +652,52 @@ func (g *G) elemOps(i int, t *ty.Ty) {
 			reg("intersectl", fmt.Sprintf("rt.IntersectL(%s.IntersectL_%d)", qn, i))
 			for _, pr := range pairs {
 				g.ow.op("intersectl", tn, g.inst(lists[pr[0]]).Wire(), g.inst(lists[pr[1]]).Wire())
+			}
+		}
+	}
+	if floaty(env, t) && (g.want["contains"] || g.want["unique"] || g.want["set"] || g.want["union"] || g.want["intersect"]) {
+		// consistency with the emitted Equal, decided on the emitted functions themselves, NaN included
+		nl, items := g.nanLists(pool)
+		if nl != nil {
+			w("\nfunc Eq_%d(a, b %s) bool { return deriveEqual_%d(a, b) }\n", i, gt, i)
+			mkl := func(es []*ty.Val) string {
+				if es == nil {
+					return "nil"
+				}
+				return g.vg.Inst(slice(es, g.rng.Intn(2))).Wire()
+			}
+			g.stat("nan-lists", len(nl))
+			if g.want["contains"] {
+				reg("containseq", fmt.Sprintf("rt.ContainsEq(%s.Contains_%d, %s.Eq_%d)", qn, i, qn, i))
+				for _, l := range nl {
+					for _, x := range items {
+						g.ow.op("containseq", tn, mkl(l), g.vg.Inst(x).Wire())
+					}
+				}
+			}
+			if g.want["unique"] {
+				reg("uniqueeq", fmt.Sprintf("rt.UniqueEq(%s.Unique_%d, %s.Eq_%d)", qn, i, qn, i))
+				for _, l := range nl {
+					g.ow.op("uniqueeq", tn, mkl(l))
+				}
+			}
+			if g.want["set"] && comparable {
+				reg("seteq", fmt.Sprintf("rt.SetEq(%s.Set_%d, %s.Eq_%d)", qn, i, qn, i))
+				for _, l := range nl {
+					g.ow.op("seteq", tn, mkl(l))
+				}
+			}
+			for _, ui := range []string{"union", "intersect"} {
+				if !g.want[ui] {
+					continue
+				}
+				W := strings.ToUpper(ui[:1]) + ui[1:]
+				reg(ui+"eq", fmt.Sprintf("rt.%sEq(%s.%sL_%d, %s.Eq_%d)", W, qn, W, i, qn, i))
+				for _, l1 := range nl {
+					for _, l2 := range nl {
+						g.ow.op(ui+"eq", tn, mkl(l1), mkl(l2))
+					}
+				}
 			}
 		}
 	}
@@ -752,6 +877,11 @@ func (g *G) fmapStringOps(i int, r *ty.Ty) {
 	fmt.Fprintf(q, "\nfunc FmapS_%d(f func(rune) %s, s string) []%s { return deriveFmapS_%d(f, s) }\n", i, gr, gr, i)
 	fmt.Fprintf(g.m, "\trt.Reg(\"fmaps\", %q, rt.FmapS(%s.FmapS_%d))\n", tn, qn, i)
 	rpool := g.vg.Pool(r)
+	if r.K == ty.Basic && r.B == "int32" {
+		for _, x := range []int64{0xD800, 0xDFFF, 0x110000, 0xFFFD, 0x10FFFF, 65, -2} {
+			rpool = append(rpool, &ty.Val{K: ty.VInt, Int: fmt.Sprint(x)})
+		}
+	}
 	for _, s := range g.stringPool() {
 		n := len([]rune(s))
 		rs := make([]*ty.Val, n)
@@ -945,8 +1075,9 @@ func main() {
 	env.Decls = append(env.Decls,
 		&ty.Decl{Name: "Word", Pkg: "strings", Under: b("string")},
 		&ty.Decl{Name: "Key", Pkg: "sort", Under: b("int")},
-		&ty.Decl{Name: "B", Pkg: "bytes", Under: ty.Sl(b("byte"))})
-	word, key, bb := n(shadow0), n(shadow0+1), n(shadow0+2)
+		&ty.Decl{Name: "B", Pkg: "bytes", Under: ty.Sl(b("byte"))},
+		&ty.Decl{Name: "NU64", Pkg: "", Under: b("uint64")})
+	word, key, bb, nu64 := n(shadow0), n(shadow0+1), n(shadow0+2), n(shadow0+3)
 	// element types: basics (incl. bool and complex, which have no <), named basics (incl. a named bool), comparable struct, pointers to structs, slices, a struct
 	// with pointers, a recursive and an imported struct behind pointers
 	elems := []*ty.Ty{b("int"), b("int64"), b("uint8"), b("string"), b("float64"), b("bool"), n(0), n(1), n(2),
@@ -955,12 +1086,16 @@ func main() {
 		// pointers to basics: ordered and compared through the pointer, nil first, never by identity
 		p(b("int")), p(b("string")),
 		// a NAMED float inside non-comparable elements: -0 / +0 are Equal and must land in one hash bucket
-		ty.Sl(n(2)), p(n(2)), p(n(36))}
-	keys := []*ty.Ty{b("int"), b("string"), n(0), n(5), ty.Ar(2, b("int")), b("float64"), b("float32"), b("complex128"), n(2)}
-	results := []*ty.Ty{b("int"), b("string"), p(n(5)), ty.Sl(b("int")), n(5), b("bool"), b("float64"), n(1)}
+		ty.Sl(n(2)), p(n(2)), p(n(36)),
+		// unsigned 64-bit integers (values at and above 1<<63 must not be ordered as negative ints), also named
+		// and as map keys behind Compare (which sorts the keys); floats inside comparable and non-comparable values
+		b("uint64"), b("uint"), b("uintptr"), nu64, ty.M(b("uint64"), b("int")), b("float32"), n(15), ty.Sl(b("float64")), p(b("float64"))}
+	keys := []*ty.Ty{b("int"), b("string"), n(0), n(5), ty.Ar(2, b("int")), b("float64"), b("float32"), b("complex128"), n(2), b("uint64")}
+	// int32 = rune: a rune -> rune mapping must not be special-cased (negative, surrogate, > MaxRune results)
+	results := []*ty.Ty{b("int"), b("string"), p(n(5)), ty.Sl(b("int")), n(5), b("bool"), b("float64"), n(1), b("int32")}
 	cap, maxLen, nRandom := 6, 7, 8
 	if *thorough {
-		elems = append(elems, b("int8"), b("uint64"), b("float32"), b("int32"), p(b("float64")), ty.Sl(b("int8")),
+		elems = append(elems, b("int8"), b("int32"), b("uint32"), ty.Sl(b("int8")),
 			ty.M(b("string"), b("int")), n(14), n(10), p(n(8)), n(20), n(16), ty.Sl(p(n(5))), n(11), ty.Sl(ty.Sl(b("byte"))), ty.Ar(2, ty.Sl(b("byte"))))
 		keys = append(keys, n(1), b("bool"), b("uint8"), n(14), ty.Ar(2, n(5)), b("complex64"))
 		results = append(results, p(n(6)), n(0), b("uint8"), ty.M(b("string"), b("int")))
